@@ -192,7 +192,7 @@ func errRes(s *Store, err error, first bool) string {
 
 // jitter runs outside the lock: yields or sleeps a few microseconds so that
 // goroutines interleave at the storage boundary (where a real store blocks).
-func (s *Store) jitter() {
+func (s *Store) jitter(tag uint64) {
 	if s.InFlight != nil {
 		n := atomic.AddInt64(s.InFlight, 1)
 		for {
@@ -221,7 +221,7 @@ func (s *Store) jitter() {
 		// global orders of storage events give distinct hashes
 		for {
 			o := atomic.LoadUint64(s.OrderHash)
-			n := (o ^ s.Tag) * 0x100000001b3
+			n := (o ^ tag) * 0x100000001b3
 			if atomic.CompareAndSwapUint64(s.OrderHash, o, n) {
 				break
 			}
@@ -230,7 +230,16 @@ func (s *Store) jitter() {
 }
 
 func (s *Store) Get(key []byte) ([]byte, error) {
-	s.jitter()
+	s.jitter(s.Tag)
+	return s.getCore(key)
+}
+
+func (v *View) Get(key []byte) ([]byte, error) {
+	v.s.jitter(v.tag)
+	return v.s.getCore(key)
+}
+
+func (s *Store) getCore(key []byte) ([]byte, error) {
 	s.mu.Lock()
 	defer s.mu.Unlock()
 	first := !s.Faulted
@@ -269,7 +278,16 @@ func (s *Store) delLocked(k string) {
 }
 
 func (s *Store) Put(key []byte, value []byte) error {
-	s.jitter()
+	s.jitter(s.Tag)
+	return s.putCore(key, value)
+}
+
+func (v *View) Put(key []byte, value []byte) error {
+	v.s.jitter(v.tag)
+	return v.s.putCore(key, value)
+}
+
+func (s *Store) putCore(key []byte, value []byte) error {
 	s.mu.Lock()
 	defer s.mu.Unlock()
 	first := !s.Faulted
@@ -283,7 +301,16 @@ func (s *Store) Put(key []byte, value []byte) error {
 }
 
 func (s *Store) BatchPut(kvs []kvql.KVPair) error {
-	s.jitter()
+	s.jitter(s.Tag)
+	return s.batchPutCore(kvs)
+}
+
+func (v *View) BatchPut(kvs []kvql.KVPair) error {
+	v.s.jitter(v.tag)
+	return v.s.batchPutCore(kvs)
+}
+
+func (s *Store) batchPutCore(kvs []kvql.KVPair) error {
 	s.mu.Lock()
 	defer s.mu.Unlock()
 	keys := make([]string, len(kvs))
@@ -305,7 +332,16 @@ func (s *Store) BatchPut(kvs []kvql.KVPair) error {
 }
 
 func (s *Store) Delete(key []byte) error {
-	s.jitter()
+	s.jitter(s.Tag)
+	return s.deleteCore(key)
+}
+
+func (v *View) Delete(key []byte) error {
+	v.s.jitter(v.tag)
+	return v.s.deleteCore(key)
+}
+
+func (s *Store) deleteCore(key []byte) error {
 	s.mu.Lock()
 	defer s.mu.Unlock()
 	first := !s.Faulted
@@ -319,7 +355,16 @@ func (s *Store) Delete(key []byte) error {
 }
 
 func (s *Store) BatchDelete(keys [][]byte) error {
-	s.jitter()
+	s.jitter(s.Tag)
+	return s.batchDeleteCore(keys)
+}
+
+func (v *View) BatchDelete(keys [][]byte) error {
+	v.s.jitter(v.tag)
+	return v.s.batchDeleteCore(keys)
+}
+
+func (s *Store) batchDeleteCore(keys [][]byte) error {
 	s.mu.Lock()
 	defer s.mu.Unlock()
 	ks := make([]string, len(keys))
@@ -338,8 +383,18 @@ func (s *Store) BatchDelete(keys [][]byte) error {
 	return nil
 }
 
+// View is a handle on a shared Store that carries its own tag, so that the
+// global order hash distinguishes which caller issued a storage event.
+type View struct {
+	s   *Store
+	tag uint64
+}
+
+func (s *Store) View(tag uint64) *View { return &View{s: s, tag: tag} }
+
 type cursor struct {
 	s    *Store
+	tag  uint64
 	id   int
 	keys []string
 	vals []string
@@ -347,7 +402,16 @@ type cursor struct {
 }
 
 func (s *Store) Cursor() (kvql.Cursor, error) {
-	s.jitter()
+	s.jitter(s.Tag)
+	return s.cursorCore(s.Tag)
+}
+
+func (v *View) Cursor() (kvql.Cursor, error) {
+	v.s.jitter(v.tag)
+	return v.s.cursorCore(v.tag)
+}
+
+func (s *Store) cursorCore(tag uint64) (kvql.Cursor, error) {
 	s.mu.Lock()
 	defer s.mu.Unlock()
 	s.nCur++
@@ -357,7 +421,7 @@ func (s *Store) Cursor() (kvql.Cursor, error) {
 		s.rec(Event{Op: OpCursor, Cur: id, Res: errRes(s, err, first)})
 		return nil, err
 	}
-	c := &cursor{s: s, id: id}
+	c := &cursor{s: s, id: id, tag: tag}
 	c.keys = append([]string(nil), s.keys...)
 	c.vals = make([]string, len(c.keys))
 	for i, k := range c.keys {
@@ -369,7 +433,7 @@ func (s *Store) Cursor() (kvql.Cursor, error) {
 
 func (c *cursor) Seek(prefix []byte) error {
 	s := c.s
-	s.jitter()
+	s.jitter(c.tag)
 	s.mu.Lock()
 	defer s.mu.Unlock()
 	first := !s.Faulted
@@ -384,7 +448,7 @@ func (c *cursor) Seek(prefix []byte) error {
 
 func (c *cursor) Next() ([]byte, []byte, error) {
 	s := c.s
-	s.jitter()
+	s.jitter(c.tag)
 	s.mu.Lock()
 	defer s.mu.Unlock()
 	first := !s.Faulted
